@@ -1,16 +1,16 @@
 SPECIFICATION TSpec
 CONSTANTS
-  WSel = "a"
+  WSel = "g"
   Blocks = {"A", "B"}
   MaxI = 4
   MaxMsgs = 1000000
-  CertRound = FALSE
+  CertRound = TRUE
   Creds = {"ok", "bad"}
   Known = {}
-  Replay = {"Prevote", "Precommit"}
+  Replay = {}
   Skew = {"judged", "same"}
   MaxLost = 1000000
-  FutureJudged = TRUE
+  FutureJudged = FALSE
   Mode = "G"
   MaxOps = 1000000
 CONSTRAINT HighWater
